@@ -94,7 +94,7 @@ let verdict case impl =
       if prop_ok all then begin
         if not (final_ok seqs fin) then
           "diff model: the call made after joining all threads must exceed every value handed out (C18_inv), final=" ^ hex_of_z fin
-        else if pace = "4" then begin
+        else if pace = "4" then begin (* metric not reported for the two-phase pace *)
           (* two phases separated by a barrier: split every sequence at calls/2 *)
           let split l =
             let rec go k acc l = if k = 0 then (List.rev acc, l) else
@@ -103,9 +103,47 @@ let verdict case impl =
           let halves = List.map split seqs in
           if phase_ok (List.map fst halves) (List.map snd halves) then "ok"
           else "diff model: a value handed out after the barrier does not exceed every value handed out before it (C18_call_order)"
-        end else "ok"
+        end else begin
+          (* contention actually achieved: values v whose predecessor v-1 was handed to ANOTHER thread (the
+             generator was ahead of / level with the clock and two threads took consecutive values) *)
+          let tbl = Hashtbl.create 65536 in
+          List.iteri (fun ti sq -> List.iter (fun v -> Hashtbl.replace tbl (hex_of_z v) ti) sq) seqs;
+          let adj = ref 0 and total = ref 0 in
+          List.iteri (fun ti sq -> List.iter (fun v ->
+              incr total;
+              match Hashtbl.find_opt tbl (hex_of_z (Z.sub v (Zpos XH))) with
+              | Some tj when tj <> ti -> incr adj
+              | _ -> ()) sq) seqs;
+          Printf.sprintf "ok cross_adjacent=%d values=%d" !adj !total
+        end
       end
       else "viol " ^ explain all
+    end
+  | ["C"; _serial; _warn; calls; _profile], [toks] ->
+    (* scripted clock: every value must be exactly compute_next(previous value, reading) *)
+    let calls = int_of_shex calls in
+    let toks = if toks = "-" then [] else String.split_on_char ',' toks in
+    if List.length toks <> calls then "diff shape: expected " ^ string_of_int calls ^ " calls"
+    else begin
+      let rec go k lastv arms = function
+        | [] -> let (a, b, c) = arms in Printf.sprintf "ok ahead=%d plus1=%d preepoch=%d" a b c
+        | tok :: r ->
+          (match String.split_on_char ':' tok with
+           | [rd; v] ->
+             let c = if rd = "n" then None else Some (z_of_hex rd) in
+             let v = z_of_hex v in
+             let m = compute_next lastv c in
+             if v = m then
+               let (a, b, c3) = arms in
+               let arms = (match c with
+                   | None -> (a, b, c3 + 1)
+                   | Some _ -> if v = Z.add lastv (Zpos XH) && not (Some v = c) then (a, b + 1, c3) else (a + 1, b, c3)) in
+               go (k + 1) v arms r
+             else if not (Z.ltb lastv v) then
+               Printf.sprintf "viol call=%d previous=%s reading=%s returned=%s (not above the previous value)" k (hex_of_z lastv) rd (hex_of_z v)
+             else Printf.sprintf "diff call=%d previous=%s reading=%s returned=%s model=%s" k (hex_of_z lastv) rd (hex_of_z v) (hex_of_z m)
+           | _ -> "error bad token " ^ tok) in
+      go 0 Z0 (0, 0, 0) toks
     end
   | ["B"; _serial; _warn; calls; _pace], [samples] ->
     let calls = int_of_shex calls in
@@ -126,33 +164,42 @@ let verdict case impl =
         "diff " ^ find 0 Z0 samples
       end
     end
-  | ["E"; _serial; gen; nreq], [toks; consults; frames] ->
+  | "E" :: _, "skip-env" :: _ -> "ok skip-env"
+  | ["E"; _serial; gen; nreq], [toks; consults; unmatched] ->
+    (* Every frame of a request - the first one and the ones re-sent after UNPREPARED - must carry
+       frames_ts: the statement's timestamp if it has one (property: sent unchanged, in preference to a
+       generated one => viol otherwise), else ONE generated value, the same in all frames of the request.
+       The generated value itself is only visible through the frame, so for those requests the comparison
+       with choose_ts is vacuous: presence, equality across re-sent frames and pairwise distinctness over the
+       requests are what is checked. *)
     let with_gen = int_of_shex gen <> 0 and nreq = int_of_shex nreq in
-    let consults = int_of_shex consults and frames = int_of_shex frames in
+    let consults = int_of_shex consults and unmatched = int_of_shex unmatched in
     let opt s = if s = "n" then None else Some (z_of_hex s) in
     let toks = if toks = "-" then [] else String.split_on_char ',' toks in
     if List.length toks <> nreq then "diff shape: expected " ^ string_of_int nreq ^ " requests"
     else begin
-      let viol = ref "" and diff = ref "" and gens = ref [] and n_explicit = ref 0 in
+      let viol = ref "" and diff = ref "" and gens = ref [] and n_generated = ref 0 and resent = ref 0 in
       List.iteri (fun i tok ->
           match String.split_on_char '.' tok with
           | [kind; e; o] ->
             if o = "missing" then (if !diff = "" then diff := Printf.sprintf "request %d (%s): no frame seen" i kind)
-            else if o = "dup" then (if !diff = "" then diff := Printf.sprintf "request %d (%s): more than one frame" i kind)
             else begin
-              let explicit = opt e and observed = opt o in
-              (* the generator's value is only visible through the frame itself *)
-              let gen_value = if with_gen && explicit = None then observed else None in
-              let expected = choose_ts explicit (if with_gen then (match explicit with None -> gen_value | Some _ -> Some Z0) else None) in
-              (match explicit with Some _ -> incr n_explicit | None -> ());
-              if expected <> observed then begin
+              let explicit = opt e in
+              let frames = List.map opt (String.split_on_char '+' o) in
+              if List.length frames > 1 then incr resent;
+              let first = List.hd frames in
+              let gen_value = if with_gen && explicit = None then first else None in
+              let expected = frames_ts explicit (if with_gen then (match explicit with None -> gen_value | Some _ -> Some Z0) else None)
+                  (nat_of_int (List.length frames - 1)) in
+              (match explicit with None -> incr n_generated | Some _ -> ());
+              if expected <> frames then begin
                 match explicit with
                 | Some _ ->
-                  if !viol = "" then viol := Printf.sprintf "request %d (%s): statement timestamp %s but the frame carries %s" i kind e o
+                  if !viol = "" then viol := Printf.sprintf "request %d (%s): statement timestamp %s but the frames carry %s" i kind e o
                 | None ->
-                  if !diff = "" then diff := Printf.sprintf "request %d (%s): no statement timestamp, generator configured=%b, frame carries %s" i kind with_gen o
+                  if !diff = "" then diff := Printf.sprintf "request %d (%s): no statement timestamp, generator configured=%b, frames carry %s" i kind with_gen o
               end else if with_gen && explicit = None then
-                (match observed with
+                (match first with
                  | Some g -> gens := g :: !gens
                  | None -> if !diff = "" then diff := Printf.sprintf "request %d (%s): generator configured but the frame has no timestamp" i kind)
             end
@@ -161,12 +208,13 @@ let verdict case impl =
       else if not (all_distinct [!gens]) then "viol generated timestamps in frames are not pairwise distinct: " ^ explain [List.sort compare !gens]
       else if !diff <> "" then "diff " ^ !diff
       else begin
-        (* gen_consulted: one next_timestamp call per frame whose statement has no timestamp *)
-        let expected_consults = if with_gen then frames - !n_explicit else 0 in
+        (* gen_consulted: one next_timestamp call per request without a statement timestamp (re-sent frames
+           reuse the value), plus one per internal request of the driver seen in the window *)
+        let expected_consults = if with_gen then !n_generated + unmatched else 0 in
         if consults <> expected_consults then
-          Printf.sprintf "diff model: %d next_timestamp calls for %d frames of which %d carry a statement timestamp (expected %d calls)"
-            consults frames !n_explicit expected_consults
-        else "ok"
+          Printf.sprintf "diff model: %d next_timestamp calls, expected %d (%d requests without a statement timestamp + %d internal frames)"
+            consults expected_consults !n_generated unmatched
+        else Printf.sprintf "ok resent=%d" !resent
       end
     end
   | _ -> "error unknown-case"
